@@ -185,15 +185,17 @@ structure CTrackWf (c : Track) (ss : List Sec) : Prop where
   smap : c.sectorMap.length = c.sectors
   cmap : c.cylMap.length = if c.head &&& IMD_CYL_MAP_FLAG = IMD_CYL_MAP_FLAG then c.sectors else 0
   hmap : c.headMap.length = if c.head &&& IMD_HEAD_MAP_FLAG = IMD_HEAD_MAP_FLAG then c.sectors else 0
+  shift : c.shift ≤ 6
 
 theorem trackFromBytes_toBytes (c : Track) (ss : List Sec) (h : CTrackWf c ss) (rest : List Nat) :
     trackFromBytes (trackToBytes c ++ rest) = some (some (c, rest)) := by
   obtain ⟨mode, cyl, head, sectors, shift, smap, cmap, hmap, buf⟩ := c
-  obtain ⟨hsecs, hcount, hbuf, hsm, hcm, hhm⟩ := h
-  simp only at hsecs hcount hbuf hsm hcm hhm
+  obtain ⟨hsecs, hcount, hbuf, hsm, hcm, hhm, hshift⟩ := h
+  simp only at hsecs hcount hbuf hsm hcm hhm hshift
   subst hbuf
   subst hcount
   simp only [trackToBytes, List.cons_append, List.nil_append, List.append_assoc, trackFromBytes]
+  rw [if_neg (by omega : ¬ shift > 6)]
   have h0 : ¬ ((smap ++ (cmap ++ (hmap ++ (compressed ss ++ rest)))).length < ss.length) := by
     simp only [List.length_append]; omega
   rw [if_neg h0]
@@ -256,15 +258,16 @@ structure TrackWf (t : Track) (ss : List Sec) : Prop where
   smap : t.sectorMap.length = t.sectors
   cmap : t.cylMap.length = if t.head &&& IMD_CYL_MAP_FLAG = IMD_CYL_MAP_FLAG then t.sectors else 0
   hmap : t.headMap.length = if t.head &&& IMD_HEAD_MAP_FLAG = IMD_HEAD_MAP_FLAG then t.sectors else 0
-  shift : t.shift ≠ 0xFF
+  /-- `update_from_bytes` refuses size codes above 6 (and 0xFF, "inhomogeneous sector sizes") -/
+  shift : t.shift ≤ 6
 
 def TracksWf (ts : List Track) : Prop := ∀ t ∈ ts, ∃ ss, TrackWf t ss
 
 theorem compress_of_wf (t : Track) (ss : List Sec) (h : TrackWf t ss) :
     t.compress = some { t with buf := compressed ss } ∧ CTrackWf { t with buf := compressed ss } ss ∧
       ({ t with buf := compressed ss } : Track).expand = some t := by
-  obtain ⟨hsecs, hcount, hbuf, hsm, hcm, hhm, _⟩ := h
-  refine ⟨?_, ⟨hsecs, hcount, rfl, hsm, hcm, hhm⟩, ?_⟩
+  obtain ⟨hsecs, hcount, hbuf, hsm, hcm, hhm, hsh⟩ := h
+  refine ⟨?_, ⟨hsecs, hcount, rfl, hsm, hcm, hhm, hsh⟩, ?_⟩
   · simp only [Track.compress, hbuf, hcount, compressGo_flatten t.shift ss hsecs, Option.map]
   · simp only [Track.expand, hcount, expandGo_compressed t.shift ss hsecs, Option.map]
     cases t
@@ -310,7 +313,8 @@ theorem tracks_roundtrip (ts : List Track) (h : TracksWf ts) :
       | succ f =>
         have hne : trackToBytes { t with buf := compressed ss } ++ bytes ≠ [] := by simp [trackToBytes]
         have hstep := trackFromBytes_toBytes _ ss hcw bytes
-        have hshift : ¬ (({ t with buf := compressed ss } : Track).shift = 0xFF) := hw.shift
+        have hshift : ¬ (({ t with buf := compressed ss } : Track).shift = 0xFF) := by
+          have := hw.shift; show ¬ (t.shift = 0xFF); omega
         have hf' : ts.length ≤ f := by simp at hf; omega
         rw [readTracks_cons f _ hne _ bytes t hstep hshift hex, hrd f hf']
 
